@@ -1,35 +1,98 @@
 """Stub pair for number rendering: a rendered symbolic integer is a real `str` (so isinstance checks and dict keys work)
 that remembers the integer; parsing such a string returns it.  Contract: CPython's formatting and int() parsing are
-mutually inverse (trusted, stated in the harness' STUBS)."""
+mutually inverse (trusted, stated in the harness' STUBS).
+
+Two renderings are told apart because SPSDK's parsers treat them differently:
+  * prefixed ("0x1F", digits=None): value_to_int and int(x, 16) give the integer back;
+  * bare     ("001F", digits=n):    the text a `config_as_hexstring` register is stored as.  int(x, 16) gives the
+    integer back; value_to_int reads such a text by its own grammar (decimal when every digit is 0..9, binary after a
+    leading "0B", otherwise not a number) - `bare_value_to_int` is the loop-free summary of exactly that, and its
+    equivalence with the real value_to_int on rendered strings is proved in the C11 run (cases hexsummary/*).
+"""
 
 
 class HexNum(str):
-    def __new__(cls, v, text="0x<sym>"):
+    def __new__(cls, v, text="0x<sym>", digits=None):
         s = str.__new__(cls, text)
         s.sym = v
+        s.digits = digits
         return s
+
+
+def bare_value_to_int(v, n, error):
+    """what spsdk.utils.misc.value_to_int returns for the text f"{v:0{n}X}" (0 <= v < 16**n); raises `error` where it
+    raises SPSDKError.  Works on plain and on symbolic integers (every `if` is a fork)."""
+    d = [(v // (16 ** i)) % 16 for i in range(n)]          # d[0] = last character
+    if n >= 3 and d[n - 1] == 0 and d[n - 2] == 11:          # "0B...": binary prefix of the grammar
+        val = 0
+        for i in range(n - 3, -1, -1):
+            if d[i] > 1:
+                raise error
+            val = val * 2 + d[i]
+        return val
+    val = 0
+    for i in range(n - 1, -1, -1):
+        if d[i] > 9:
+            raise error
+        val = val * 10 + d[i]
+    return val
+
+
+def hex_value_to_int(h, error):
+    """value_to_int on a HexNum"""
+    if h.digits is None:
+        return h.sym
+    return bare_value_to_int(h.sym, h.digits, error)
+
+
+def hex_int(h, base):
+    """int(h, base) on a HexNum"""
+    if base == 16 or (base == 0 and h.digits is None):
+        return h.sym
+    if h.digits is None:
+        raise ValueError("invalid literal for int(): prefixed hexadecimal text")
+    if base == 10:
+        d = [(h.sym // (16 ** i)) % 16 for i in range(h.digits)]
+        val = 0
+        for i in range(h.digits - 1, -1, -1):
+            if d[i] > 9:
+                raise ValueError("invalid literal for int() with base 10")
+            val = val * 10 + d[i]
+        return val
+    from .core import Unsupported
+    raise Unsupported(f"int(<rendered number>, {base})")
 
 
 def install_value_to_int():
     """value_to_int / int() accept a HexNum everywhere in the loaded spsdk modules."""
     from . import loader, shims
     import spsdk.utils.misc as M
+    import spsdk.exceptions as EX
     real = M.value_to_int
     if getattr(real, "__symx_hexnum__", False):
         return
 
     def value_to_int(value, default=None):
         if isinstance(value, HexNum):
-            return value.sym
+            try:
+                return hex_value_to_int(value, EX.SPSDKError("Invalid input number"))
+            except EX.SPSDKError:
+                if default is not None:
+                    return default
+                raise
         return real(value, default)
     value_to_int.__symx_hexnum__ = True
+    value_to_int.__wrapped__ = real
     loader.patch_everywhere(real, value_to_int)
     real_int = shims.sx_int.__new__
+    if getattr(real_int, "__symx_hexnum__", False):
+        return
 
     def int_new(cls, x=0, *a, **k):
         if isinstance(x, HexNum):
-            return x.sym
+            return hex_int(x, a[0] if a else k.get("base", 10))
         return real_int(cls, x, *a, **k)
+    int_new.__symx_hexnum__ = True
     shims.sx_int.__new__ = int_new
 
 
